@@ -18,18 +18,35 @@ func Components(g *ig.DGraph) []*ig.DGraph {
 	}
 
 	cnncmp := make([]*ig.DGraph, 0, 2) // this has at least 2 connected components
-	cnncmp = append(cnncmp, &ig.DGraph{Nodes: visitedN.Keys(), Edges: visitedE.Keys()})
+	cnncmp = append(cnncmp, subgraph(g, visitedN, visitedE))
 
 	for _, n := range g.Nodes {
 		if !visitedN[n] {
 			ns := make(ig.NodeSet)
 			es := make(ig.EdgeSet)
 			walkDfs(n, ns, es)
-			cnncmp = append(cnncmp, &ig.DGraph{Nodes: ns.Keys(), Edges: es.Keys()})
+			cnncmp = append(cnncmp, subgraph(g, ns, es))
 			maps.Copy(visitedN, ns)
 		}
 	}
 	return cnncmp
+}
+
+// subgraph returns the given nodes and edges of g in the order they have in g, so that a component
+// is laid out exactly as if it were the only input
+func subgraph(g *ig.DGraph, ns ig.NodeSet, es ig.EdgeSet) *ig.DGraph {
+	sub := &ig.DGraph{}
+	for _, n := range g.Nodes {
+		if ns[n] {
+			sub.Nodes = append(sub.Nodes, n)
+		}
+	}
+	for _, e := range g.Edges {
+		if es[e] {
+			sub.Edges = append(sub.Edges, e)
+		}
+	}
+	return sub
 }
 
 func walkDfs(n *ig.Node, visitedN ig.NodeSet, visitedE ig.EdgeSet) {
